@@ -201,4 +201,76 @@ theorem update_singletons (isAlnum : List A → Bool) (m : TIC A) (h : TIInv (to
         rw [← hu]
         simp [cOf, ofG, singletons_flatten]
 
+/-- The paste buffer of the merge-free model stays a list of single-atom characters. -/
+theorem update_paste_single (isAlnum : List A → Bool) (g g1 : TI (List A)) (ev : VaxisModel.Model.TextInputCl.Ev A)
+    (hp : AllSingle g.paste) (hu : VaxisModel.Model.TextInput.update isAlnum g (evOf ev) = some g1) :
+    AllSingle g1.paste := by
+  obtain ⟨content, x, o, paste⟩ := g
+  simp only at hp
+  cases ev with
+  | release => simp only [evOf, VaxisModel.Model.TextInput.update, Option.some.injEq] at hu; rw [← hu]; exact hp
+  | pasteKey t =>
+    simp only [evOf, VaxisModel.Model.TextInput.update, Option.some.injEq] at hu
+    rw [← hu]; exact allSingle_append _ _ hp (allSingle_singletons t)
+  | other =>
+    simp only [evOf, VaxisModel.Model.TextInput.update, Option.some.injEq, clamp_mk] at hu
+    rw [← hu]; exact hp
+  | pasteEnd =>
+    simp only [evOf, VaxisModel.Model.TextInput.update] at hu
+    split at hu
+    · simp only [Option.some.injEq, clamp_mk] at hu
+      rw [← hu]; intro c hc; cases hc
+    · cases hu
+  | key s c a sup t =>
+    simp only [evOf, VaxisModel.Model.TextInput.update] at hu
+    rw [keySwitch_paste' isAlnum content x o paste] at hu
+    cases hk : keySwitch isAlnum (⟨content, x, o, []⟩ : TI (List A)) s c a sup (singletons t) with
+    | none => rw [hk] at hu; cases hu
+    | some r =>
+      obtain ⟨g, ret⟩ := r
+      obtain ⟨gc, gx, go, gp⟩ := g
+      rw [hk] at hu
+      cases ret with
+      | true => simp only [Option.map_some, Option.some.injEq] at hu; rw [← hu]; exact hp
+      | false => simp only [Option.map_some, Option.some.injEq, clamp_mk] at hu; rw [← hu]; exact hp
+
+theorem gOf_cOf (g : TI (List A)) (hp : AllSingle g.paste) : gOf (cOf g) = g := by
+  obtain ⟨content, x, o, paste⟩ := g
+  simp only [gOf, cOf, TI.mk.injEq, true_and]
+  exact singletons_flatten_of_allSingle paste hp
+
+/-- Histories: fold of `update`, `none` = panic. -/
+def runCl (isAlnum : List A → Bool) : TIC A → List (VaxisModel.Model.TextInputCl.Ev A) → Option (TIC A)
+  | m, [] => some m
+  | m, e :: es => (VaxisModel.Model.TextInputCl.update singletons isAlnum m e).bind fun m' => runCl isAlnum m' es
+
+def runG (isAlnum : List A → Bool) : TI (List A) → List (VaxisModel.Model.TextInput.Ev (List A)) → Option (TI (List A))
+  | g, [] => some g
+  | g, e :: es => (VaxisModel.Model.TextInput.update isAlnum g e).bind fun g' => runG isAlnum g' es
+
+theorem runs_agree (isAlnum : List A → Bool) : ∀ (evs : List (VaxisModel.Model.TextInputCl.Ev A)) (m : TIC A),
+    TIInv (toG m) → AllSingle m.content →
+    runCl isAlnum m evs = (runG isAlnum (gOf m) (evs.map evOf)).map cOf := by
+  intro evs
+  induction evs with
+  | nil => intro m _ _; simp [runCl, runG, cOf_gOf]
+  | cons e es ih =>
+    intro m h hs
+    simp only [runCl, runG, List.map_cons]
+    rw [update_singletons isAlnum m h hs e]
+    cases hu : VaxisModel.Model.TextInput.update isAlnum (gOf m) (evOf e) with
+    | none => rfl
+    | some g1 =>
+      simp only [Option.map_some, Option.bind_some]
+      have hp1 : AllSingle g1.paste := update_paste_single isAlnum (gOf m) g1 e (allSingle_singletons _) hu
+      have hcl : VaxisModel.Model.TextInputCl.update singletons isAlnum m e = some (cOf g1) := by
+        rw [update_singletons isAlnum m h hs e, hu]; rfl
+      have hinvC : VaxisModel.Lemmas.TextInputCl.TIInvC singletons m :=
+        ⟨h, (singletons_flatten_of_allSingle m.content hs).symm⟩
+      obtain ⟨m'', hu', hi, _⟩ := VaxisModel.Lemmas.TextInputCl.update_refinesC isAlnum singletons_seg m e hinvC
+      rw [hcl] at hu'
+      cases hu'
+      have hs1 : AllSingle (cOf g1).content := by rw [hi.2]; exact allSingle_singletons _
+      rw [ih (cOf g1) hi.1 hs1, gOf_cOf g1 hp1]
+
 end VaxisModel.Lemmas.TextInputOne
